@@ -213,7 +213,11 @@ func equals(t types.Type, x, y value) bool {
 	case uint:
 		return x == y.(uint)
 	case uint8:
-		return x == y.(uint8)
+		yb, ok := y.(uint8)
+		return ok && x == yb
+	case absByte:
+		yb, ok := y.(absByte)
+		return ok && x == yb
 	case uint16:
 		return x == y.(uint16)
 	case uint32:
